@@ -461,7 +461,7 @@ impl Prop for C07 {
         "C07"
     }
     fn n_cases(&self, tier: Tier) -> u64 {
-        tier.pick(2500, 200_000)
+        tier.pick(15_000, 200_000)
     }
     fn time_cap_s(&self, tier: Tier) -> u64 {
         tier.pick(100, 1200)
